@@ -58,10 +58,10 @@ class Script:
 
 class Outcome:
     """Result of one frame: kind 'R' (reply), 'N' (silence), 'P' (panic)."""
-    __slots__ = ("kind", "reply", "tsize", "events", "lines", "panic")
+    __slots__ = ("kind", "reply", "tsize", "events", "lines", "panic", "monitors")
 
     def __init__(self):
-        self.kind, self.reply, self.tsize, self.events, self.lines, self.panic = "?", None, None, [], [], ""
+        self.kind, self.reply, self.tsize, self.events, self.lines, self.panic, self.monitors = "?", None, None, [], [], "", {}
 
     def short(self):
         return self.kind + ("" if self.reply is None else " " + self.reply.hex())
@@ -139,7 +139,7 @@ def clock_of(o):
     return opts
 
 
-def run_model(scripts, impl_outs=None, ovf=True):
+def run_model(scripts, impl_outs=None, ovf=True, monitors=()):
     envfile = build.ENVFILE
 
     def work(args):
@@ -150,8 +150,11 @@ def run_model(scripts, impl_outs=None, ovf=True):
             lines.append("RESET")
             for fi, f in enumerate(s.frames):
                 io = outs_chunk[si][fi] if outs_chunk is not None else None
-                lines.append("F " + f.hex() + clock_of(io))
-        out = _run_proc([MODEL_RUN, envfile], "\n".join(lines) + "\n")
+                extra = ""
+                if io is not None and monitors and io.kind in ("R", "N"):
+                    extra = " impl=" + (io.reply.hex() if io.kind == "R" else "N")
+                lines.append("F " + f.hex() + clock_of(io) + extra)
+        out = _run_proc([MODEL_RUN, envfile, ",".join(monitors)], "\n".join(lines) + "\n")
         res = []
         it = iter(out.split("\n"))
         for s in chunk:
@@ -175,6 +178,9 @@ def run_model(scripts, impl_outs=None, ovf=True):
                         o.tsize = int(line[2:])
                     elif line.startswith("E "):
                         o.events.append(line[2:])
+                    elif line.startswith("V "):
+                        w = line.split()
+                        o.monitors[w[1]] = (w[2] == "1")
                     elif line == "END":
                         break
                 outs.append(o)
